@@ -13,7 +13,12 @@
 //!   kind "sort" (top-level ORDER BY):    same multiset in every run  (the order on the keys is checked in Coq by `agrees`);
 //!   kind "topk" (ORDER BY + LIMIT):      same number of rows in every run (valid top-k is checked in Coq by `agrees`).
 //! "diff" = [a, b]: indices of two runs that differ, when ok is false.
-//!   c02 --seed S --n N [--k K] [--case ID [--explain]]
+//! "suspects": a query that fails the oracle is re-run with each override of SUSPECTS applied to every configuration;
+//!   lib/props/C02.py attributes a failure to a listed known finding only if the override makes all runs agree again.
+//!   c02 --seed S --n N [--k K] [--case ID [--explain]]     generated queries
+//!   c02 --witness                                          the fixed witness cases of the listed known findings
+//!   development: --probe "<sql>" (ad-hoc SQL over the tables of --case ID), --cfg J [--tp N] [--bs N] [--set k=v,..]
+//!   [--unset k,..] [--unset-all] [--plain-layout] [--noconc]  (configuration 0 and a modified configuration J only)
 #[path = "../refsql_gen.rs"]
 mod refsql_gen;
 
